@@ -4,7 +4,6 @@
 package expand
 
 import (
-	"cmp"
 	"runtime"
 	"slices"
 	"strconv"
@@ -245,19 +244,12 @@ func listEnviron_(caseInsensitive bool, pairs ...string) Environ {
 	list := slices.Clone(pairs)
 	env := listEnviron{caseInsensitive: caseInsensitive}
 	slices.SortStableFunc(list, func(a, b string) int {
-		isep := strings.IndexByte(a, '=')
-		jsep := strings.IndexByte(b, '=')
-		if isep < 0 {
-			isep = 0
-		} else {
-			isep += 1
-		}
-		if jsep < 0 {
-			jsep = 0
-		} else {
-			jsep += 1
-		}
-		return env.compare(a[:isep], b[:jsep])
+		// Sort by name alone, not including the '=' separator, so that
+		// e.g. "PATH" sorts before "PATH1". Invalid elements without a
+		// separator are removed below, so their order does not matter.
+		aname, _, _ := strings.Cut(a, "=")
+		bname, _, _ := strings.Cut(b, "=")
+		return env.compare(aname, bname)
 	})
 
 	last := ""
@@ -297,20 +289,11 @@ func (l listEnviron) compare(a, b string) int {
 }
 
 func (l listEnviron) Get(name string) Variable {
-	eqpos := len(name)
 	endpos := len(name) + 1
 	i, ok := slices.BinarySearchFunc(l.pairs, name, func(pair, name string) int {
-		if len(pair) < endpos {
-			// Too short; see if we are before or after the name.
-			return l.compare(pair, name)
-		}
-		// Compare the name prefix, then the equal character.
-		c := l.compare(pair[:eqpos], name)
-		eq := pair[eqpos]
-		if c == 0 {
-			return cmp.Compare(eq, '=')
-		}
-		return c
+		// The list is sorted by name; every element has a separator.
+		pairName, _, _ := strings.Cut(pair, "=")
+		return l.compare(pairName, name)
 	})
 	if ok {
 		return Variable{Set: true, Exported: true, Kind: String, Str: l.pairs[i][endpos:]}
